@@ -491,7 +491,7 @@ fn obs_ade(case: &Case, text: &str) -> Result<Obs, String> {
     if files.len() != case.files.len() {
         fail(&mut of, format!("ade: {} file records for {} files", files.len(), case.files.len()));
     }
-    let mut part = |of: &mut Vec<OFail>, at: &str, p: &AdePartD| -> String {
+    let part = |of: &mut Vec<OFail>, at: &str, p: &AdePartD| -> String {
         if p.total_covered != p.n_covered || p.total_uncovered != p.n_uncovered {
             fail(of, format!("{}: total_covered {} total_uncovered {} but {} / {} lines are listed", at,
                 p.total_covered, p.total_uncovered, p.n_covered, p.n_uncovered));
@@ -777,4 +777,147 @@ fn obs_html(case: &Case, out: &Path) -> Result<Obs, String> {
         canon: format!("ok {}", head.join(" ")),
         ofails: of,
     })
+}
+
+// ---------------------------------------------------------------------------------------------
+// The oracle must reject reports whose figures are wrong: doctored outputs of the real writers.
+#[cfg(test)]
+mod tests {
+    use super::*;
+
+    fn case() -> (Env, Case) {
+        let dir = std::env::temp_dir().join(format!("c13-oracle-test-{}", std::process::id()));
+        let env = Env::new(&dir);
+        let f = |rel: &str, cov: &str| FileCase {
+            rel: rel.into(),
+            rel_abs: false,
+            exists: true,
+            cov: parse_cov(cov),
+        };
+        let case = Case {
+            files: vec![
+                f("s/a/x.c", "L1:5,2:0,4:7;B1:10,4:1;F66:1:1,67:4:0"),
+                f("s/y.c", "L3:0,5:1;B;F"),
+                f("s/a/z.c", "L7:1;B7:01;F68:7:1"),
+            ],
+            precision: 2,
+            branch: true,
+            threads: 1,
+        };
+        (env, case)
+    }
+    fn text(env: &Env, case: &Case, w: &str) -> String {
+        let t = env.tuples(case);
+        let p = env.out.join(format!("t.{}", w));
+        match w {
+            "lcov" => grcov::output_lcov(&t, Some(&p), false),
+            "covdir" => grcov::output_covdir(&t, Some(&p), case.precision),
+            "cobertura" => grcov::output_cobertura(None, &t, Some(&p), false, false),
+            "markdown" => grcov::output_markdown(&t, Some(&p), case.precision),
+            "ade" => grcov::output_activedata_etl(&t, Some(&p), false),
+            _ => unreachable!(),
+        }
+        read(&p)
+    }
+    fn unnamed(o: &Obs) -> usize {
+        o.ofails.iter().filter(|f| f.finding.is_none()).count()
+    }
+    fn doctored(s: &str, from: &str, to: &str) -> String {
+        assert!(s.contains(from), "{:?} not in {}", from, s);
+        s.replacen(from, to, 1)
+    }
+
+    #[test]
+    fn genuine_reports_pass() {
+        let (env, case) = case();
+        for w in ["lcov", "covdir", "cobertura", "markdown", "ade", "html"] {
+            let o = observe(&env, &case, w);
+            assert_eq!(unnamed(&o), 0, "{}: {:?}", w, o.ofails);
+        }
+    }
+    #[test]
+    fn lcov_wrong_totals_are_rejected() {
+        let (env, case) = case();
+        let t = text(&env, &case, "lcov");
+        for (a, b) in [("LH:2", "LH:3"), ("LF:3", "LF:4"), ("BRF:3", "BRF:2"), ("BRH:2", "BRH:1"), ("FNH:1", "FNH:2"), ("FNF:2", "FNF:1")] {
+            let o = obs_lcov(&case, &doctored(&t, a, b)).unwrap();
+            assert!(unnamed(&o) > 0, "{} -> {} accepted", a, b);
+        }
+    }
+    #[test]
+    fn covdir_wrong_figures_are_rejected() {
+        let (env, case) = case();
+        let t = text(&env, &case, "covdir");
+        // root: 6 lines, 4 covered; directory s/a: 4 lines, 3 covered
+        for (a, b) in [
+            ("\"linesTotal\":6", "\"linesTotal\":7"),
+            ("\"linesCovered\":4", "\"linesCovered\":3"),
+            ("\"linesMissed\":2", "\"linesMissed\":1"),
+            ("\"coveragePercent\":66.67", "\"coveragePercent\":66.66"),
+            ("\"coveragePercent\":66.67", "\"coveragePercent\":67.0"),
+            ("\"coveragePercent\":75.0", "\"coveragePercent\":null"),
+            ("\"linesTotal\":4", "\"linesTotal\":5"),
+        ] {
+            let o = obs_covdir(&env, &case, &doctored(&t, a, b)).unwrap();
+            assert!(unnamed(&o) > 0, "{} -> {} accepted", a, b);
+        }
+    }
+    #[test]
+    fn cobertura_wrong_figures_are_rejected() {
+        let (env, case) = case();
+        let t = text(&env, &case, "cobertura");
+        for (a, b) in [
+            ("lines-valid=\"6\"", "lines-valid=\"7\""),
+            ("lines-covered=\"4\"", "lines-covered=\"5\""),
+            ("line-rate=\"0.6666666666666666\"", "line-rate=\"0.66\""),
+            ("branches-valid=\"5\"", "branches-valid=\"8\""),
+            ("<package name=\"s/y.c\" line-rate=\"0.5\"", "<package name=\"s/y.c\" line-rate=\"1\""),
+            ("branch-rate=\"0.6\"", "branch-rate=\"NaN\""),
+        ] {
+            let o = obs_cobertura(&case, &doctored(&t, a, b)).unwrap();
+            assert!(unnamed(&o) > 0, "{} -> {} accepted", a, b);
+        }
+    }
+    #[test]
+    fn markdown_wrong_figures_are_rejected() {
+        let (env, case) = case();
+        let t = text(&env, &case, "markdown");
+        for (a, b) in [("66.67%", "66.66%"), ("2 / 3", "3 / 3"), ("Total coverage: 66.67%", "Total coverage: 66.6%"), ("50.00%", "inf%")] {
+            let o = obs_markdown(&case, &doctored(&t, a, b)).unwrap();
+            assert!(unnamed(&o) > 0, "{} -> {} accepted", a, b);
+        }
+    }
+    #[test]
+    fn ade_wrong_figures_are_rejected() {
+        let (env, case) = case();
+        let t = text(&env, &case, "ade");
+        for (a, b) in [("\"total_covered\":2", "\"total_covered\":3"), ("\"percentage_covered\":0.5", "\"percentage_covered\":0.6")] {
+            let o = obs_ade(&case, &doctored(&t, a, b)).unwrap();
+            assert!(unnamed(&o) > 0, "{} -> {} accepted", a, b);
+        }
+    }
+    #[test]
+    fn html_wrong_figures_are_rejected() {
+        let (env, case) = case();
+        let t = env.tuples(&case);
+        let edits: &[(&str, &str, &str)] = &[
+            ("index.html", "<abbr title=\"4 / 6\">", "<abbr title=\"5 / 6\">"),
+            ("index.html", "66.67 %", "66.6 %"),
+            ("s/a/index.html", "3 / 4", "2 / 4"),
+            ("coverage.json", "66.67%", "67.67%"),
+            ("badges/flat.svg", "coverage: 66%", "coverage: 67%"),
+            ("badges/social.svg", "Coverage: 66%", "Coverage: 65%"),
+        ];
+        for (file, a, b) in edits {
+            let out = env.out.join("t.html");
+            let _ = std::fs::remove_dir_all(&out);
+            grcov::output_html(&t, Some(&out), 1, true, None, 2, &None, true, grcov::html::HtmlResources::Cdn);
+            let p = out.join(file);
+            std::fs::write(&p, doctored(&read(&p), a, b)).unwrap();
+            // an inconsistent badge is already rejected by the decoder (reported as undecodable)
+            if let Ok(o) = obs_html(&case, &out) {
+                assert!(unnamed(&o) > 0, "{}: {} -> {} accepted", file, a, b);
+            }
+        }
+    }
 }
